@@ -98,6 +98,15 @@ def run(tier):
             obs = rep.notes.get("_last_obs", {})
             exps = rep.notes.get("_last_exps", [])
             ptr_events(obs, exps, "arrays", kname, lambda e: e["hist"][-1]["op"])
+        # ... and arrays with index bases (the array histories of C19): reextent by index extensions, copies, assignment
+        bops = ["ctor_ext", "ctor_iota", "ctor_copy", "ctor_move", "ctor_view", "decay", "assign_copy", "assign_move", "assign_view", "swap",
+                "write", "destroy", "reextent", "reextent_fill", "clear", "reshape"]
+        for D, depth, ab in ((1, 3, "ABasesMixed"), (2, 2, "ABasesTwo")):
+            name = "c11_arrays_p%d_bases_d%d" % (k, D)
+            c = aconsts(D, 2, depth, True, bops)
+            c["ABases"] = vlib.Sub(ab)
+            arrays.run_config(rep, "C11", name, c, os.path.join(wd, "arrays_p%d_e0" % k), wd, 2, check_first=True, sig_extra={"pointer": kname, "part": "arrays_bases"})
+            ptr_events(rep.notes.get("_last_obs", {}), rep.notes.get("_last_exps", []), "arrays", kname, lambda e: e["hist"][-1]["op"])
     nt = rep.notes.pop("_nontrivial", set())
     rep.notes.pop("_last_exps", None)
     rep.notes.pop("_last_obs", None)
